@@ -29,7 +29,7 @@ fn n_cases_base(prop: &str, tier: &str) -> usize {
         "C15" => if quick { 1800 } else { 30_000 },
         "C16" => if quick { 450 } else { 4000 },
         "C19" => if quick { 900 } else { 10_000 },
-        "C10" => if quick { 24 } else { 200 },
+        "C10" => if quick { 64 } else { 400 },
         _ => crate::props2::n_cases(prop, tier),
     }
 }
@@ -395,8 +395,14 @@ fn c20(rng: &mut Rng, tier: &str, idx: usize) -> Case {
             0 => {
                 // valid rendering, possibly with other prefix
                 let n = rng.below(4_294_967_296);
-                let p = *rng.pick(&["HP:", "XX:", "abc", "é:", "日", "HP+", "   "]);
-                format!("{p}{n}")
+                // (three-byte prefixes of every kind: a byte order mark, zero-width and replacement
+                // characters, line separators; the same characters BEFORE a complete `HP:` rendering,
+                // which is no valid text)
+                let p = *rng.pick(&[
+                    "HP:", "XX:", "abc", "é:", "日", "HP+", "   ", "\u{feff}", "\u{200b}", "\u{fffd}", "\u{2028}", "€", "a\u{e9}", "\u{feff}HP:", "\u{200b}HP:",
+                    "日HP:", "\t\n ", "hp:", "Hp:",
+                ]);
+                if rng.chance(1, 3) { format!("{p}{:07}", n % 10_000_000) } else { format!("{p}{n}") }
             }
             1 => {
                 let n = rng.below(10_000_000);
@@ -751,6 +757,19 @@ fn onto_case(rng: &mut Rng, prop: &str, tier: &str, idx: usize) -> Case {
     let max_terms = *rng.pick(&[4usize, 8, 15, 25, 40]);
     let (mut f, shape) = gen_facts(rng, &DagOpts { max_terms, with_roots, max_recs: 6 });
     c.stat(&format!("shape_{shape:?}"), 1);
+    let mut long_term = false;
+    if path < 2 && prop == "C01" && with_roots && rng.chance(1, 6) {
+        // a term name beyond the 255 bytes the file format holds, a multi-byte character across
+        // byte 255: the round trip below rebuilds the same is_a graph
+        let i = rng.below(f.terms.len() as u64) as usize;
+        f.terms[i].1 = match rng.below(3) {
+            0 => format!("{}é tail", "n".repeat(254)),
+            1 => format!("{}日本", "n".repeat(253)),
+            _ => format!("{}😀", "n".repeat(252)),
+        };
+        long_term = true;
+        c.stat("term_names_beyond_255_bytes", 1);
+    }
     let mut long_gene = false;
     if path < 2 && prop == "C02" && with_roots && !f.recs[0].is_empty() && rng.chance(1, 5) {
         // a gene symbol beyond the 255 bytes the file format holds, a two-byte character across
@@ -777,7 +796,7 @@ fn onto_case(rng: &mut Rng, prop: &str, tier: &str, idx: usize) -> Case {
             c.op("rel 0".to_string());
             c.op("oracle closure 0".to_string());
             c.nontrivial = multi > 0;
-            if with_roots && rng.chance(1, 3) {
+            if with_roots && (long_term || rng.chance(1, 3)) {
                 // construction path `from_bytes(as_bytes())` of the ontology just built (terms were
                 // supplied in any order: the first one may well have parents)
                 c.op("roundtrip 0 9".to_string());
@@ -1022,6 +1041,16 @@ fn c16(rng: &mut Rng, tier: &str, idx: usize) -> Case {
         f = gen_fan(rng, p);
         with_roots = true;
         c.stat(&format!("fan_{p}"), 1);
+    }
+    if idx % 7 == 3 && !f.terms.iter().any(|t| t.0 == 0) {
+        // HP:0000000 as a term without parents (a second root) that has a child: its records (a
+        // term record, a parent record with zero parents) wherever the supply order puts them
+        let used: Vec<u32> = f.terms.iter().map(|t| t.0).collect();
+        let child = gen_ids(rng, 1, &used)[0];
+        f.terms.push((0, gen_name(rng)));
+        f.terms.push((child, gen_name(rng)));
+        f.edges.push((0, child));
+        c.stat("term_0_as_second_root", 1);
     }
     let (multi, _) = facts_stats(&f, &mut c);
     for s in 0..k {
@@ -1275,6 +1304,21 @@ fn c10(rng: &mut Rng, idx: usize) -> Case {
         let mut c = Case::new("big-arena");
         c.op(format!("bigarena 70000 {}", rng.next()));
         c.stat("big_arena_terms", 70000);
+        c.nontrivial = true;
+        return c;
+    }
+    if idx >= 24 && idx % 5 != 0 {
+        // many cheap text-route cases (no sweep over the id space): every term, gene and disease of
+        // the files is found under its id and name, nothing else is ([Typedef] stanzas among the
+        // terms, hpoa files without a column header, names with `: `)
+        let mut c = crate::gen_c09::c09(rng, "quick", 0);
+        c.tag = format!("text-light-{}", c.tag);
+        c.stat("text_route", 1);
+        c.op("iter 0".to_string());
+        for q in ["", "a", "ABC1", "Marfan"] {
+            c.op(format!("genebyname 0 {}", name(q)));
+            c.op(format!("omimsearch 0 {}", name(q)));
+        }
         c.nontrivial = true;
         return c;
     }
